@@ -1009,6 +1009,8 @@ def parse_template(path):
                     spec["as"] = val
                 elif key == "novis":
                     spec["novis"] = True
+                elif key == "tail-wrap":
+                    spec["tail_wrap"] = val
                 else:
                     raise SystemExit(f"{path}:{i+1}: unknown directive `{key}`")
                 i += 1
@@ -1413,6 +1415,32 @@ def generate(unit, template_path, canary=False, extra_fns=(), drop_hints=()):
                     new += " { " + (c["let"] + " " if c["let"] != "-" else "") + expr + " }"
                     g.rewrites.append({"rule": "R3+R10", "where": where, "before": body[a:be], "after": new})
                     body = body[:a] + new + body[be:]
+            if spec.get("tail_wrap"):
+                # R21: the extracted arm is the VALUE of a `match` that its function wraps (`Ok(match ast { .. => { ..; TREE } })`): the tail
+                # expression of the block becomes `Ok(TREE)` so that the block is a function body of the function's own result type
+                bm_ = mask_rust(body)
+                depth_, bounds_ = 0, [1]
+                for k_, ch_ in enumerate(bm_):
+                    if ch_ in "([{":
+                        depth_ += 1
+                    elif ch_ in ")]}":
+                        depth_ -= 1
+                        if ch_ == "}" and depth_ == 1:
+                            rest_ = bm_[k_ + 1:].lstrip()
+                            if not (rest_.startswith("else") or rest_.startswith(".") or rest_.startswith("?")):
+                                bounds_.append(k_ + 1)
+                    elif ch_ == ";" and depth_ == 1:
+                        bounds_.append(k_ + 1)
+                tail_at = None
+                for b_ in reversed(bounds_):
+                    if bm_[b_:len(bm_) - 1].strip():
+                        tail_at = b_
+                        break
+                if tail_at is None:
+                    raise AnchorLost(f"{where}: no tail expression to wrap (R21)")
+                tail_txt = body[tail_at:len(body) - 1]
+                body = body[:tail_at] + " " + spec["tail_wrap"] + "(" + tail_txt.strip() + ")\n}"
+                g.rewrites.append({"rule": "R21", "where": where, "before": "TAIL", "after": spec["tail_wrap"] + "(TAIL)"})
             for pos, anchor, text in spec["inserts"]:
                 if pos == "loop-start":
                     sel = int(anchor) if anchor.isdigit() else anchor.strip("/")
